@@ -79,14 +79,21 @@ def ops : List (String × Handler) := [
       pure (ofIvList (matchGenomicFeatures (← jInt (← arg j "delta")) (← jIvList (← arg j "known"))
               (← jIvList (← arg j "reads"))))),
   ("build_event_map", fun j => do
-      let m := buildEventMap (← jBool (← arg j "micro")) (← jList jEvent (← arg j "events"))
-      -- the Python dict: one binding per key (the newest); canonical order = by first appearance in `m`
+      let evs ← jList jEvent (← arg j "events")
+      let m := buildEventMap evs
+      let mm := buildMicroMap (← jBool (← arg j "micro")) evs
+      -- the Python dict: one binding per key (the newest); canonical order = by first appearance in `m`;
+      -- `retained_micro_introns`: per read exon the list of isoform intron indices in event order
       let keys := (m.map (·.1)).eraseDups
-      pure (ofList (fun k => Json.arr #[ofInt k, ofOpt ofEvent (m.lookup k)]) keys)),
+      let mkeys := (mm.map (·.1)).eraseDups
+      pure (Json.mkObj [
+        ("emap", ofList (fun k => Json.arr #[ofInt k, ofOpt ofEvent (m.lookup k)]) keys),
+        ("micro", ofList (fun k => Json.arr #[ofInt k, ofIntList (microAt mm k)]) mkeys)])),
   ("process_events", fun j => do
       let p ← jParams j
       pure (ofRes (processEvents p (← jErrTable (← arg j "err")) (← jIvList (← arg j "known"))
-              (← jEmap (← arg j "emap")) (← jIv (← arg j "read_region")) (← jIvList (← arg j "read_introns"))
+              (← jEmap (← arg j "emap")) (← jList jIv (← arg j "micro")) (← jIv (← arg j "read_region"))
+              (← jIvList (← arg j "read_introns"))
               (← jIv (← arg j "iso_region")) (← jIvList (← arg j "iso_introns"))))),
   ("correct_assigned_read", fun j => do
       let p ← jParams j
